@@ -2588,8 +2588,14 @@ func (s *Store) fsmApply(l *raft.Log) (e any) {
 			}
 			s.cdcStreamer.Reset(l.Index)
 		}
+		if verifhook.Enabled {
+			verifhook.Hit("store.fsmApply.before/" + s.raftID)
+		}
 		return s.cmdProc.Process(l.Data, s.db)
 	}()
+	if verifhook.Enabled {
+		verifhook.Hit("store.fsmApply.after/" + s.raftID + "/" + cmd.Type.String())
+	}
 
 	verifhook.Hit("store.apply.after")
 	if mutated {
@@ -2843,6 +2849,10 @@ func (s *Store) fsmRestore(rc io.ReadCloser) (retErr error) {
 	}()
 	s.logger.Printf("initiating node restore on node ID %s", s.raftID)
 	startT := time.Now()
+	if verifhook.Enabled {
+		verifhook.Hit("store.fsmRestore.begin/" + s.raftID)
+		defer verifhook.Hit("store.fsmRestore.end/" + s.raftID)
+	}
 
 	// Create a scratch file path, then extract the database from the
 	// protobuf-framed snapshot stream into it.
